@@ -1334,13 +1334,14 @@ class String(ConstantOpcode):
     priority = Unicode.priority + 1
 
     def encode_body(self) -> bytes:
-        # a quoted, escaped ASCII literal terminated by a newline
-        return repr(self.arg).encode("ascii") + b"\n"
+        # a quoted, escaped ASCII literal terminated by a newline; readers only undo the escapes
+        # of a bytes literal, so anything that is not ASCII is refused
+        return repr(self.arg.encode("ascii"))[1:].encode("ascii") + b"\n"
 
     @classmethod
     def validate(cls, obj):
-        if not isinstance(obj, str):
-            raise ValueError(f"String must be instantiated from a str, not {obj!r}")
+        if not isinstance(obj, str) or not obj.isascii():
+            raise ValueError(f"String must be instantiated from an ASCII str, not {obj!r}")
         return obj
 
 
